@@ -855,6 +855,56 @@ def r10_multiport_borrows(ctx):
     ctx.floor('R10.16', n, 3)
 
 
+def r10_fanout(ctx):
+    """Sent to several ports, received once by each: a MultiPort hands every message to every open child exactly once, wherever
+    the closed ones sit in its list (first, in the middle, two in a row) and on every send, not only the first - forgetting a
+    closed port must not make the loop step over its neighbour."""
+    from ..absint import AObj
+    mp = ctx.p.cls(P, 'MultiPort')
+    o, msend = ctx.p.lookup_method(mp, '_send')
+    if msend is None:
+        raise AnalysisError('MultiPort._send not found')
+    ctx.fn(msend)
+    w = ctx.where(msend)
+    n = 0
+    for layout in ('CO', 'COO', 'OCO', 'CCO', 'OCCO', 'COCO', 'OOC'):
+        ai = pm.make_interp(ctx)
+        pm.device_double(ai, ctx)
+        holder = {}
+
+        def thunk(layout=layout):
+            kids = [pm.new_port(ai, ctx, 'EchoPort', [], {}) for _ in layout]
+            for k, c in zip(kids, layout):
+                if c == 'C':
+                    pm.call(ai, ctx, k, 'close')
+            multi = pm.new_port(ai, ctx, 'MultiPort', [list(kids)], {})
+            ms = [pm.note(ctx, 1), pm.note(ctx, 2), pm.note(ctx, 3)]
+            for m in ms:
+                pm.call(ai, ctx, multi, 'send', [m])
+            holder.update(kids=kids, ms=ms)
+            return None
+        outs = ai.explore(thunk)
+        n += 1
+        ok = len(outs) == 1 and outs[0].kind == 'return'
+        got = None
+        if ok:
+            got = [[x.attrs.get('note') if isinstance(x, AObj) else x for x in k.attrs['_messages'].items] for k in holder['kids']]
+            ok = all(g == ([1, 2, 3] if c == 'O' else []) for g, c in zip(got, layout))
+        ctx.require(ok, 'R10.17', f'three sends through a MultiPort over ports {layout} (C closed, O open)', w,
+                    f'the ports received {got if got is not None else outs}; every open port must get notes 1, 2, 3 once each, a closed one nothing',
+                    construct=f'{msend.qname}::fan-out-positions')
+        for qn in ai.inlined:
+            ctx.functions.add(qn)
+    ctx.floor('R10.17', n, 7)
+
+
+def r10_server(ctx):
+    """A server port is a MultiPort over its connections: each client is in its list once however it was accepted, so a send
+    reaches it once and what it sent is handed out once (shared with C18 R18.4)."""
+    from . import c18
+    ctx.borrow(c18.r18_4, 'R10.18')
+
+
 def r10_socket_iteration(ctx):
     """Received exactly once - also the messages that arrive together with the end of the stream: a socket port that closes
     itself inside a receive call still hands out every complete message it took in (shared with C18 R18.1)."""
@@ -869,5 +919,5 @@ def r10_live_socket(ctx):
     ctx.borrow(c18.r18_live, 'R10.15')
 
 
-RULES = [('R10.16', r10_multiport_borrows), ('R10.15', r10_live_socket), ('R10.14', r10_hook_order), ('R10.13', r10_socket_iteration), ('R10.12', r10_multi_ports), ('R10.11', r10_unbounded), ('R10.10', r10_shared_args), ('R10.8', r10_exec), ('R10.9', r10_abandoned), ('R10.1', r10_1), ('R10.2', r10_2), ('R10.3', r10_3), ('R10.4', r10_4), ('R10.5', r10_5), ('R10.6', r10_6), ('R10.7', r10_7)]
+RULES = [('R10.18', r10_server), ('R10.17', r10_fanout), ('R10.16', r10_multiport_borrows), ('R10.15', r10_live_socket), ('R10.14', r10_hook_order), ('R10.13', r10_socket_iteration), ('R10.12', r10_multi_ports), ('R10.11', r10_unbounded), ('R10.10', r10_shared_args), ('R10.8', r10_exec), ('R10.9', r10_abandoned), ('R10.1', r10_1), ('R10.2', r10_2), ('R10.3', r10_3), ('R10.4', r10_4), ('R10.5', r10_5), ('R10.6', r10_6), ('R10.7', r10_7)]
 THOROUGH_RULES = [('R10-backends', r10_backends)]
